@@ -34,6 +34,9 @@ func init() {
 func hashWorker(args []string) error {
 	in := bufio.NewReaderSize(os.Stdin, 1<<20)
 	out := bufio.NewWriter(os.Stdout)
+	// one hasher for the life of the worker, as spok uses one hasher for all tasks of a run: the digest must not depend on
+	// what the hasher was asked before
+	hasher := hash.New()
 	for {
 		line, err := in.ReadString('\n')
 		if err != nil {
@@ -50,7 +53,7 @@ func hashWorker(args []string) error {
 		}
 		runtime.GOMAXPROCS(gmp)
 		before := runtime.NumGoroutine()
-		d, herr := hash.New().Hash(files)
+		d, herr := hasher.Hash(files)
 		// give finished goroutines a moment to be reaped before counting
 		after := runtime.NumGoroutine()
 		for i := 0; i < 200 && after > before; i++ {
